@@ -48,6 +48,9 @@ type Opts struct {
 	QueryMs   int // per-query solver timeout
 	MaxModels int // distinct violation models to extract
 	Covers    int // cover witnesses to extract (for native validation)
+	// Witness: extract one arbitrary execution of the harness (the model of the sanity query,
+	// restricted to executions inside the unwinding/capacity bounds) for native validation
+	Witness bool
 	MaxTerms  int // cap on the unroller (terms); exceeded => inconclusive
 	Spin      bool // report unwinding failures of library loops as violations (class spin)
 	SpinU     int
@@ -137,7 +140,7 @@ func (l *Loaded) stmtOf(pos token.Pos, isStore bool) string {
 			case *ast.BlockStmt, *ast.CaseClause, *ast.CommClause:
 				p := l.Fset.Position(st.Pos())
 				id := fmt.Sprintf("%s:%d:%d", p.Filename, p.Line, p.Column)
-				if as, ok := st.(*ast.AssignStmt); ok && isStore && as.Tok == token.ASSIGN && len(as.Rhs) == 1 {
+				if as, ok := st.(*ast.AssignStmt); ok && isStore && (as.Tok == token.ASSIGN || as.Tok == token.DEFINE) && len(as.Rhs) == 1 {
 					if _, isCall := as.Rhs[0].(*ast.CallExpr); isCall {
 						id += "#store"
 					}
@@ -239,6 +242,7 @@ func RunMany(o Opts, fixes []string) []*report.Report {
 	for i, f := range fixes {
 		o2 := o
 		o2.Fix = f
+		o2.Witness = o.Witness && i == 0 // one witness per process
 		r := RunLoaded(l, o2)
 		if i == 0 {
 			r.LoadSec = ld
@@ -604,8 +608,32 @@ func RunLoaded(l *Loaded, o Opts) *report.Report {
 		}
 	}()
 	// (0) sanity
-	res, _, sec := sv.Check(nil, o.QueryMs, nil)
-	addQ("assumptions-consistent (expect sat)", "sanity", res, sec)
+	res, sec := "", 0.0
+	if o.Witness {
+		// an arbitrary execution that stays inside the unwinding and capacity bounds: also a
+		// witness that the assumptions are consistent; replayed natively by the driver
+		var bs []*smt.Term
+		for i := range viol {
+			if viol[i].Kind == "bound" && !viol[i].G.IsFalse() {
+				bs = append(bs, viol[i].G)
+			}
+		}
+		var as []string
+		if nb := c.Not(c.Or(bs...)); !nb.IsTrue() {
+			as = []string{define(nb)}
+		}
+		var model string
+		res, model, sec = sv.Check(as, o.QueryMs, getvals)
+		if res == "sat" {
+			addQ("assumptions-consistent, one execution inside the bounds extracted (expect sat)", "sanity", res, sec)
+			tr, _ := decode(model, "witness:arbitrary-execution")
+			rep.CoverTrace = append(rep.CoverTrace, tr)
+		}
+	}
+	if res != "sat" {
+		res, _, sec = sv.Check(nil, o.QueryMs, nil)
+		addQ("assumptions-consistent (expect sat)", "sanity", res, sec)
+	}
 	if res != "sat" {
 		if res == "unsat" {
 			return inconclusive("vacuous harness: assumptions are unsatisfiable")
